@@ -3,7 +3,7 @@
    py_SHAGA_.., py_jDE_..), is EQUAL to the hand-written models of Adapt.v.  Rational results that the source and the
    model compute by different but equivalent arithmetic (1 * x^2 against x * x, fold_left against fold_right) are
    related by ==, everything else by =. *)
-From TF Require Import Py PyLemmas Adapt AdaptProofs CodeEqC07 CodeEqC11 CodeEqC15.
+From TF Require Import Py PyLemmas RandomPrimsProofs2 Adapt AdaptProofs CodeEqC07 CodeEqC11 CodeEqC15.
 From TFG Require Import GenCode.
 From Coq Require Import Qfield.
 Open Scope Q_scope.
@@ -382,4 +382,67 @@ Proof.
   rewrite !map_length. repeat split; try exact Hlen.
   - apply Forall_map. eapply Forall_impl; [|exact Hok]. intros t Ht. apply Ht.
   - apply Forall_map. eapply Forall_impl; [|exact Hok]. intros t Ht. apply Ht.
+Qed.
+
+(* ---------- SHADE's archive: _append_archive and the row shuffle it uses ---------- *)
+Open Scope Z_scope.
+Lemma getR_nonneg' {A} (l : list (list A)) i : 0 <= i -> getR l i = nth (Z.to_nat i) l [].
+Proof. intro H. unfold getR. now rewrite pyidx_nonneg. Qed.
+
+Lemma for_down_sattolo_rows : forall (i : nat) (arr : list (list Q)) ds, valid_draws ds ->
+  for_down_nat i (Z.of_nat i) (fun i0 shuffled_arr =>
+      bind popU (fun r_1 =>
+        let j := Qfloor' (r_1 * ZtoQ i0)%Q in
+        let v_2 := getR shuffled_arr j in
+        let v_3 := getR shuffled_arr i0 in
+        let shuffled_arr := setA shuffled_arr i0 v_2 in
+        let shuffled_arr := setA shuffled_arr j v_3 in
+        ret shuffled_arr)) arr ds
+  = sattolo_loop [] i arr ds.
+Proof.
+  induction i as [|i IH]; intros arr ds Hv; [reflexivity|].
+  cbn [for_down_nat sattolo_loop]. unfold bind at 1. unfold bind at 1. unfold bind at 2. unfold popU.
+  destruct ds as [|[u|m v|x] ds]; try reflexivity.
+  inversion Hv as [|? ? Hd Hv']; subst. cbn in Hd. destruct Hd as [Hu0 Hu1].
+  cbv zeta. unfold ret at 1.
+  assert (Hj : 0 <= Qfloor' (u * ZtoQ (Z.of_nat (Datatypes.S i)))).
+  { unfold ZtoQ. apply (Qfloor'_bounds u (Z.of_nat (Datatypes.S i)) Hu0 Hu1). lia. }
+  rewrite (getR_nonneg' _ _ Hj), getR_nat, setA_nat, (setA_nonneg _ _ _ Hj).
+  replace (Z.of_nat (Datatypes.S i) - 1) with (Z.of_nat i) by lia.
+  rewrite IH by exact Hv'. unfold swap, ZtoQ. reflexivity.
+Qed.
+
+Theorem code_sattolo_shuffle_2d (arr : list (list Q)) ds : valid_draws ds ->
+  py_sattolo_shuffle_2d arr ds = sattolo [] arr ds.
+Proof.
+  intro Hv. unfold py_sattolo_shuffle_2d, sattolo. cbv zeta. unfold bind at 1. unfold for_down.
+  assert (Hn : zlen arr - 1 - 0 = Z.of_nat (length arr - 1) /\ zlen arr - 1 = Z.of_nat (length arr - 1) \/ arr = []).
+  { destruct arr; [right; reflexivity|left]. unfold zlen. simpl length. lia. }
+  destruct Hn as [[H1 H2]| ->]; [|reflexivity].
+  rewrite H1, H2, Nat2Z.id. pose proof (for_down_sattolo_rows (length arr - 1) arr ds Hv) as H.
+  cbv zeta in H. rewrite H. destruct (sattolo_loop [] (length arr - 1) arr ds) as [[r ds']|]; reflexivity.
+Qed.
+
+(* SHADE._append_archive: append the replaced parents; when longer than pop_size: Sattolo shuffle of the rows, keep the first pop_size *)
+Theorem code_SHADE_append_archive (pop_size : nat) (archive worse : list (list Q)) ds : valid_draws ds ->
+  py_SHADE_append_archive (Z.of_nat pop_size) archive worse ds = append_archive [] pop_size archive worse ds.
+Proof.
+  intro Hv. unfold py_SHADE_append_archive, append_archive. cbv zeta. rewrite bind_app.
+  assert (Hc : (zlen (archive ++ worse) >? Z.of_nat pop_size) = (pop_size <? length (archive ++ worse))%nat).
+  { unfold zlen. destruct (Nat.ltb_spec pop_size (length (archive ++ worse))); [apply Z.gtb_lt|rewrite Z.gtb_ltb; apply Z.ltb_ge]; lia. }
+  rewrite Hc. destruct (pop_size <? length (archive ++ worse))%nat.
+  - rewrite !bind_app, code_sattolo_shuffle_2d by exact Hv.
+    destruct (sattolo [] (archive ++ worse) ds) as [[s ds1]|]; [|reflexivity].
+    rewrite !ret_app. unfold sliceTo. rewrite pyidx_nat. reflexivity.
+  - rewrite !ret_app. reflexivity.
+Qed.
+
+(* hence (AdaptProofs.archive_spec): the archive produced by the source's own _append_archive never exceeds pop_size and holds only
+   old archive members and replaced parents *)
+Theorem src_SHADE_append_archive (pop_size : nat) (archive worse : list (list Q)) ds a ds' : valid_draws ds ->
+  py_SHADE_append_archive (Z.of_nat pop_size) archive worse ds = Some (a, ds') -> (length archive <= pop_size)%nat ->
+  (length a <= pop_size)%nat /\ (forall x, In x a -> In x archive \/ In x worse).
+Proof.
+  intros Hv. rewrite code_SHADE_append_archive by exact Hv. intros H Hl.
+  exact (archive_spec [] pop_size archive worse ds a ds' Hv H Hl).
 Qed.
